@@ -131,7 +131,7 @@ def gen_scn(rng, tf=True, fill=False, ha=False, life=False, size=60):
            "life": None, "extra_passes": rng.choice([0, 0, 1, 2])}
     if life:
         base = gen.tf_seconds(tfv) if tfv else rng.choice([1, 60, 3600])
-        scn["life"] = base * rng.randint(0, 40)
+        scn["life"] = base * rng.randint(0, 40) + rng.choice([0, 0, 0, 1, base // 2, max(base - 1, 0), 7])
     meta.update({"schedule": shape, "tf_unit": tfv[0] if tfv else "-", "fill": scn["fill"], "ha": scn["ha"]})
     return scn, meta
 
@@ -190,7 +190,16 @@ def check_hexital_tfs(scn):
     stream = scn["stream"]
     init = scn.get("init", len(stream))
     try:
-        hx = Hexital("tfs", cm.mk_candles(stream[:init]), [EMA(period=2, timeframe=tf) for tf in scn["tfs"]])
+        from datetime import timedelta as _td
+
+        extra = {} if scn.get("life") is None else {"candles_lifespan": _td(seconds=scn["life"])}
+        if scn.get("ha"):
+            extra["candlestick_type"] = "HA"
+        if scn.get("fill"):
+            extra["timeframe_fill"] = True
+        if scn.get("htf"):
+            extra["timeframe"] = scn["htf"]
+        hx = Hexital("tfs", cm.mk_candles(stream[:init]), [EMA(period=2, timeframe=tf) for tf in scn["tfs"]], **extra)
         hx.calculate()
         consumed = init
         steps = [init] + list(scn.get("chunks", []))
@@ -199,10 +208,16 @@ def check_hexital_tfs(scn):
                 hx.append(cm.mk_candles(stream[consumed : consumed + k]))
                 consumed += k
             for key, candles in hx.get_candles().items():
-                tf = None if key == "default" else key
+                tf = (scn.get("htf") if key == "default" else key) or None
                 want = cm.ref_resample(stream[:consumed], gen.tf_seconds(tf)) if tf else list(stream[:consumed])
+                if scn.get("fill") and tf:
+                    want = cm.ref_fill(want, gen.tf_seconds(tf))   # every collapsing manager fills its OWN gaps from its own buckets
+                if scn.get("ha"):
+                    want = cm.ref_ha(want)                     # every manager converts its own (collapsed raw) buckets
+                if scn.get("life") is not None:
+                    want = cm.ref_trim(want, scn["life"])     # every manager keeps its own window newest - lifespan
                 got = [cm.candle_tuple(c) for c in candles]
-                if not cm.tuples_equal(got, [tuple(w) for w in want], exact=True):
+                if not cm.tuples_equal(got, [tuple(w) for w in want], exact=not scn.get("ha")):
                     return {"step": j, "timeframe": key, "clause": "hexital-timeframe", "observed": got[-4:], "expected": want[-4:],
                             "observed_len": len(got), "expected_len": len(want)}
     except Exception as e:
@@ -219,17 +234,34 @@ def case_hexital_tfs(rng, idx, params):
     tfs = [f"{unit}{base * m}" for m in mults]
     n = rng.randint(2, params.get("size", 60))
     step = max(1, gen.tf_seconds(f"{unit}{base}") // rng.choice([1, 2, 3, 5]))
-    stream, meta = gen.gen_stream(rng, n, step=step)
+    stream, meta = gen.gen_stream(rng, n, step=step, ts_style=(rng.choice(["gaps", "biggaps", "mixed", "regular"]) if params.get("fill") else None))
     (init, chunks), shape = gen.gen_schedule(rng, n, shape=rng.choice(["batch", "few", "random", "one1", "empty1"]))
     scn = {"check": "hexital-tfs", "tfs": tfs, "stream": stream, "init": init, "chunks": chunks}
+    if params.get("fill"):
+        scn["fill"] = True
+    if params.get("ha"):
+        scn["ha"] = True
+        if rng.random() < 0.5:
+            # the Hexital's own timeframe: the common base of the members' timeframes (members are built from the Hexital's
+            # already collapsed candles, so only timeframes its buckets nest in are meaningful) - possibly one a member names too
+            scn["htf"] = f"{unit}{base}"
+    if params.get("life"):
+        b = gen.tf_seconds(f"{unit}{base}")
+        scn["life"] = b * rng.choice([0, 0, 1, 2, 5, 12, 30]) + rng.choice([0, 0, 1, b // 2])
+        # a member's manager is BUILT from what the default manager still holds (already trimmed raw candles cannot come back: a
+        # bucket whose label lies inside the window may have lost raw candles that lie outside it) - so that every manager is
+        # given the whole stream, everything beyond the first candle arrives through append, which feeds every manager
+        if init > 1:
+            scn["chunks"] = [init - 1] + list(chunks)
+            scn["init"] = 1
     bad = check_hexital_tfs(scn)
     viol = None
     if bad:
         small = cm.shrink_stream(scn, lambda s: check_hexital_tfs(_fix_sched(s)) is not None, max_tries=60)
         small = _fix_sched(small)
         bad2 = check_hexital_tfs(small) or bad
-        viol = {"scenario": small, **bad2, "signature": f"C03:{bad2.get('clause')}"}
-    meta.update({"schedule": shape, "nesting": all(b % a == 0 for a, b in zip(sorted(mults), sorted(mults)[1:])), "tfs": len(tfs)})
+        viol = {"scenario": small, **bad2, "signature": f"{params.get('pid', 'C03')}:{bad2.get('clause')}"}
+    meta.update({"schedule": shape, "life": scn.get("life") is not None, "nesting": all(b % a == 0 for a, b in zip(sorted(mults), sorted(mults)[1:])), "tfs": len(tfs)})
     return {"nontrivial": n >= 2, "key": hash(str(scn)), "violation": viol, "meta": meta,
             "sample": {"tfs": tfs, "n": n, "init": init, "chunks": chunks[:8]} if idx < 2 else None}
 
